@@ -51,7 +51,8 @@ def mmsgTok (m : Merkle.Msg Bytes) : String :=
 def extractTok (m : Merkle.Msg Bytes) : String :=
   let e := Merkle.extractMsg comb zero32 m
   let r := match e.root with | some h => Bytes.tok h | none => "nil"
-  s!"{r}/{hashesTok e.matches_}/{natsTok e.items}/{tokB e.bad}"
+  -- "/same": a repeated call on the same object answers like the first (extraction is a function of the message)
+  s!"{r}/{hashesTok e.matches_}/{natsTok e.items}/{tokB e.bad}/same"
 
 def sortNats (l : List Nat) : List Nat := l.mergeSort
 
@@ -66,7 +67,7 @@ def run : Runner
     pure { model := s!"EXT {ext} RES {",".intercalate res.reverse} {C09.bitsTok fin}" }
   | "blk", [_, b, n, t, f, _txs], impl => do
     let m ← C09.parseMsg b n t f
-    let (ext, _) ← splitExt impl
+    let (ext, implRes) ← splitExt impl
     let txs ← if ext == "-" then some [] else (ext.splitOn "|").mapM parseExtTx
     let block := txs.toArray
     let s := GetMatchedIndices bloomOps bloomSame 3000000 block (some m)
@@ -88,7 +89,11 @@ def run : Runner
     let refAgree := sref.outOfFuel || (sortNats sref.matched == idx && C09.bitsTok sref.filter == bits)
     let quad := s.steps ≤ (txs.length + 1) * ((txs.foldl (fun a t => a + t.outs.length) 0) + 2)
     pure { model := s!"EXT {ext} RES {res}",
+           -- the model's matched set is the specified one (C10_scan_sound/complete): a different reported set is a
+           -- concrete violation, not just a broken correspondence
            prop := if !refAgree then "violated:model-bug repaired scan differs from reference scan"
+                   else if !s.outOfFuel && (implRes.splitOn " ").head? != some idxTok then
+                     "violated:reported transaction set differs from the specified set"
                    else if !quad then "violated:scan steps above (n+1)*(outputs+2)" else "-" }
   | _, _, _ => none
 
